@@ -133,10 +133,15 @@ fn run_t<L: flussab_aiger::Lit + std::fmt::Display>(g: &Graph, opts: u8, query: 
         Err(AigStructureError::FoundCycle { lit }) => RenRes::Err("FoundCycle", lit.code() as u64),
         Ok((o, ren)) => {
             let c = |l: &L| l.code() as u64;
-            let map = query
+            let map: Vec<(u64, Option<u64>)> = query
                 .iter()
                 .map(|&q| (q, ren.lit_map().get(L::from_code(q as usize)).map(|m| m.code() as u64)))
                 .collect();
+            // the map's other accessors must agree with get()
+            let accessors_agree = query.iter().zip(&map).all(|(&q, m)| {
+                ren.lit_map().contains_key(L::from_code(q as usize)) == m.1.is_some()
+            }) && ren.lit_map().is_empty() == (ren.lit_map().len() == 0)
+                && ren.lit_map().len() >= 1;
             // binary writer + parser
             let mut bytes = vec![];
             {
@@ -150,6 +155,7 @@ fn run_t<L: flussab_aiger::Lit + std::fmt::Display>(g: &Graph, opts: u8, query: 
                 lt,
                 flag: false,
                 sections: false,
+                skip: 0,
             };
             let tr = drive::run_collect(pcfg, Ctor::Chunk(16384), Src::from_bytes(&bytes, Policy::OneShot, 0));
             let mut expect: Vec<String> = vec![];
@@ -204,7 +210,7 @@ fn run_t<L: flussab_aiger::Lit + std::fmt::Display>(g: &Graph, opts: u8, query: 
                 justice: o.justice_properties.iter().map(|j| j.iter().map(c).collect()).collect(),
                 fair: o.fairness_constraints.iter().map(c).collect(),
                 ands: o.and_gates.iter().map(|g| [c(&g.inputs[0]), c(&g.inputs[1])]).collect(),
-                symbols_same: o.symbols == aig.symbols,
+                symbols_same: o.symbols == aig.symbols && accessors_agree,
                 comment_same: o.comment == aig.comment,
                 map,
                 binary_roundtrip,
